@@ -78,6 +78,15 @@ func g22Decorate(r *vRand, g *g14Grammar) string {
 			if pred != "" && r.Intn(2) == 0 {
 				pred = "[" + flags[r.Intn(len(flags))] + "] "
 			}
+		case 6, 7:
+			// an optional symbol: with maxLookahead set, the lookahead nonterminals are measured
+			// (longestPhrase) and every expression kind has to be handled there
+			for _, tn := range []string{"'a' ", "'b' ", "'c' "} {
+				if k := strings.LastIndex(rest, tn); k >= 0 {
+					rest = rest[:k] + tn[:3] + "? " + rest[k+4:]
+					break
+				}
+			}
 		}
 		lines[i] = head + pred + rest
 	}
@@ -93,6 +102,10 @@ func g22Decorate(r *vRand, g *g14Grammar) string {
 			decl = "%generate s1 = set('a' | 'c');\n%generate s2 = set(~s2);\n"
 		}
 		text = strings.Replace(text, "%input In;\n", "%input In;\n"+decl, 1)
+	}
+	if r.Intn(3) == 0 {
+		// the option under which the compiler checks the length of lookahead phrases
+		text = strings.Replace(text, "language g14(go);\n", fmt.Sprintf("language g14(go);\n\nmaxLookahead = %d\n", 1+r.Intn(4)), 1)
 	}
 	return text
 }
